@@ -305,6 +305,9 @@ def families(tier='quick'):
     fams.append(('chain s - (empty-string id) - t', ['s', '', 't'], [('e0', 's', '', 0, 1), ('e1', '', 't', 0, 3)]))
     fams.append(('chain 1 - 0 - 2 (id 0 in the middle), second edge stored backwards', [1, 0, 2], [(0, 1, 0, 0, 1), (1, 2, 0, 0, 1)]))
     fams.append(('chain 5 - (-1) - 7 (id -1 in the middle)', [5, -1, 7], [(0, 5, -1, 1, 1), (1, -1, 7, 1, 0)]))
+    # identifiers whose hashes collide although they differ (hash(-1) == hash(-2) in CPython; 2**61 - 1 and 0)
+    fams.append(('chain (-1) - (-2) - 3: identifiers with equal hashes', [-1, -2, 3], [(0, -1, -2, 0, 1), (1, -2, 3, 0, 3)]))
+    fams.append(('triangle 0, 2**61 - 1, 7: identifiers with equal hashes', [0, 2 ** 61 - 1, 7], [(0, 0, 2 ** 61 - 1, 1, 1), (1, 2 ** 61 - 1, 7, 1, 1), (2, 0, 7, 0, 3)]))
     if tier == 'thorough':
         for (o1, o2, o3) in itertools.product(ORI, repeat=3):
             for (w1, w2, w3) in itertools.product(W, repeat=3):
